@@ -109,6 +109,13 @@ class C14(Property):
         "classify", "build_modules_for_cds", "CDSModuleInfo", "combine_modules")] + [
         (DI, "generate_domains"),
         ("antismash/common/hmmscan_refinement.py", "HMMResult.detailed_names"),
+        ("antismash/common/hmmscan_refinement.py", "HMMResult.__init__"),
+        ("antismash/common/hmmscan_refinement.py", "HMMResult.add_internal_hits"),
+        ("antismash/common/hmmscan_refinement.py", "HMMResult.overlaps_with"),
+        ("antismash/common/hmmscan_refinement.py", "HMMResult.to_json"),
+        ("antismash/common/hmmscan_refinement.py", "HMMResult.from_json"),
+        ("antismash/common/hmmscan_refinement.py", "HMMResult.__eq__"),
+        (DI, "CDSResult.to_json"), (DI, "CDSResult.from_json"),
     ]
     RULE = ("domain sequences over the full alphabet of the tree under test (every label of CLASSIFICATIONS, "
             "PKS_KS with trans-AT / iterative / other / stacked subtypes): (1) exhaustive strings over a "
@@ -118,12 +125,17 @@ class C14(Property):
             "input order and tied query starts; gene pairs on both strands (same / different) for combine_modules, "
             "incl. a strided sample (60k) of all pairs of strings up to length 2x3 (thorough); 2-5 gene chains through the real "
             "generate_domains loop (regions, strands, empty genes, motif-only genes); arbitrary component "
-            "sequences through Module.from_json; every label through classify and all Component predicates. "
+            "sequences through Module.from_json; every label through classify and all Component predicates; random "
+            "HMMResult trees (depth <= 3, overlapping / touching / disjoint internal hits) through the constructor, "
+            "detailed_names, to_json/from_json and Component; a strided enumeration of all ordered pairs of strings "
+            "of length <= 2 as two-gene chains on both strands through generate_domains; chains with domain-less "
+            "genes, region borders and strand changes at the cuts. "
             "non-trivial = at least two modules or one complete module (build/replay), a merge that happened or "
-            "was refused after passing the strand/emptiness guards (pair), at least one cross-gene merge (chain)")
+            "was refused after passing the strand/emptiness guards (pair), at least one cross-gene merge (chain), a "
+            "tree with internal hits (hmm)")
     TRUSTED = [
-        "HMMResult.to_json/from_json round trip and detailed_names (exercised, not modelled: a component is "
-        "its label, subtype chain, query start/end and locus)",
+        "HMMResult e-value / bitscore are Python floats, carried as opaque integers in the Hmm model (kind `hmm` "
+        "uses integral values); the rest of HMMResult (internal hits, overlap check, detailed_names, JSON) is modelled",
         "Python `is` on components is modelled by a flag set where starter and loader are assigned together",
         "`sorted(..., key=query_start)` is a stable sort (modelled by Lean's stable List.mergeSort)",
         "iteration order of the set DOUBLE_TRANSPORTER_CASES (irrelevant while all cases have one length: "
@@ -178,6 +190,41 @@ class C14(Property):
         elif rng.random() < 0.03:
             subs = [rng.choice(["Trans-AT-KS", "Iterative-KS", "x"])]
         return l, subs
+
+    def rand_tree(self, rng: random.Random, depth: int) -> List[Any]:
+        if depth == 0:
+            label = rng.choice(self.alphabet()) if rng.random() < 0.9 else "bad-domain-name"
+            start = rng.choice([0, 5, 100])
+            end = start + rng.choice([1, 10, 200])
+        else:
+            label = rng.choice(["Trans-AT-KS", "Iterative-KS", "KS_clade_7", "x", "PKS_KS"])
+            start, end = 0, 0
+        n = 0 if depth >= 3 else rng.choice([0, 0, 1, 1, 1, 1, 2, 3])
+        node = [label, start, end, rng.choice([0, 1, 3]), rng.choice([10, 50]), []]
+        for _ in range(n):
+            child = self.rand_tree(rng, depth + 1)
+            if rng.random() < 0.9:      # overlapping the parent (partially or fully)
+                child[1] = node[1] + rng.choice([0, 0, 1, -3])
+                child[2] = max(child[1] + 1, node[2] + rng.choice([0, 0, -1, 4]))
+            else:                       # touching or disjoint: the constructor must refuse
+                child[1] = node[2] + rng.choice([0, 1, 7])
+                child[2] = child[1] + 5
+            # children were generated before their coordinates were fixed: re-place their own children
+            self._refit(rng, child)
+            node[5].append(child)
+        return node
+
+    def _refit(self, rng: random.Random, node: List[Any]) -> None:
+        for child in node[5]:
+            if rng.random() < 0.93:
+                child[1] = node[1]
+                child[2] = max(node[1] + 1, node[2] - rng.choice([0, 0, 1]))
+                if child[2] <= node[1]:
+                    child[2] = node[1] + 1
+            else:
+                child[1] = node[2]
+                child[2] = node[2] + 3
+            self._refit(rng, child)
 
     def cls(self, rng: random.Random, key: str) -> str:
         self.alphabet()
@@ -299,6 +346,9 @@ class C14(Property):
         yield {"kind": "label", "label": sorted(mi.KETOSYNTHASES)[0], "subtypes": ["Trans-AT-KS", "x"]}
 
         scale = 10 if deep else 1
+        # HMMResult trees: constructor overlap check, detailed_names, to_json/from_json, Component on top
+        for _ in range(600 * scale):
+            yield {"kind": "hmm", "tree": self.rand_tree(rng, 0), "locus": "" if rng.random() < 0.03 else "g"}
         # ---- exhaustive small scope
         beh = self.behavioural()
         total = 0
@@ -375,6 +425,25 @@ class C14(Property):
                 a = self.gene(rng, "a", sa)
                 b = self.gene(rng, "b", sb)
             yield {"kind": "pair", "a": a, "b": b}
+        # two-gene chains through generate_domains on both strands: every ordered pair of short strings over the
+        # reduced behavioural alphabet, strided to a budget (the strand decides which gene is upstream)
+        reduced2 = [b for b in self.behavioural() if b[0] not in ("TD", "Abhydrolase_1", "ACPS", "Condensation_Starter",
+                                                                  "TIGR01720")]
+        strings2 = [c for n in range(1, 3) for c in itertools.product(reduced2, repeat=n)]
+        budget2 = 6000 if deep else 400
+        step2 = max(1, (len(strings2) ** 2) // budget2)
+        k2 = rng.randrange(step2)
+        for a in strings2:
+            for b in strings2:
+                k2 += 1
+                if k2 % step2:
+                    continue
+                strand = -1 if (k2 // step2) % 3 else 1
+                yield {"kind": "chain", "genes": [
+                    {"name": "left", "strand": strand, "region": 0, "motifs": False,
+                     "domains": [[l, list(s), 10 * i + 1, 10 * i + 9] for i, (l, s) in enumerate(a)]},
+                    {"name": "right", "strand": strand, "region": 0, "motifs": False,
+                     "domains": [[l, list(s), 10 * i + 1, 10 * i + 9] for i, (l, s) in enumerate(b)]}]}
         for _ in range(400 * scale):
             n = rng.choice([2, 3, 3, 4, 5])
             strand = rng.choice([1, -1])
@@ -389,6 +458,19 @@ class C14(Property):
                 for i, piece in enumerate(pieces):
                     genes.append({"name": f"g{i}", "strand": strand, "region": 0, "motifs": rng.random() < 0.2,
                                   "domains": self.place(rng, piece, scramble=False)})
+                # things that must stop a merge at a cut: a gene without domains in between (with or
+                # without motifs), a region border, a strand change
+                r = rng.random()
+                cut = rng.randrange(1, len(genes))
+                if r < 0.2:
+                    genes.insert(cut, {"name": "gap", "strand": strand, "region": 0, "motifs": rng.random() < 0.4,
+                                       "domains": []})
+                elif r < 0.35:
+                    for g in genes[cut:]:
+                        g["region"] = 1
+                elif r < 0.45:
+                    for g in genes[cut:]:
+                        g["strand"] = -strand
             else:
                 for i in range(n):
                     g = self.gene(rng, f"g{i}", strand if rng.random() < 0.85 else -strand, 6,
@@ -426,6 +508,45 @@ class C14(Property):
                  c.is_special(), c.is_fused_starter(), c.is_pks_specific(), c.is_nrps_specific()]
         assert c.subtypes == case["subtypes"]
         return {"classification": classification, "flags": [bool(f) for f in flags], "subtype": c.subtype}
+
+    def _impl_hmm(self, case: Dict[str, Any]) -> Dict[str, Any]:
+        from antismash.common.hmmscan_refinement import HMMResult
+        mi = _mi()
+
+        def construct(node: List[Any]) -> Any:
+            children = [construct(c) for c in node[5]]
+            return HMMResult(node[0], node[1], node[2], node[3], node[4], internal_hits=children)
+
+        def tree(h: Any) -> List[Any]:
+            assert float(int(h.evalue)) == h.evalue and float(int(h.bitscore)) == h.bitscore
+            return [h.hit_id, int(h.query_start), int(h.query_end), int(h.evalue), int(h.bitscore),
+                    [tree(c) for c in h.internal_hits]]
+
+        def canon(data: Dict[str, Any]) -> List[Any]:
+            assert set(data) <= {"hit_id", "query_start", "query_end", "evalue", "bitscore", "internal_hits"}
+            inner = None
+            if "internal_hits" in data:
+                inner = [canon(d) for d in data["internal_hits"]]
+            return [data["hit_id"], int(data["query_start"]), int(data["query_end"]), int(data["evalue"]),
+                    int(data["bitscore"]), inner]
+
+        h = construct(case["tree"])
+        data = json.loads(json.dumps(h.to_json()))
+        again = HMMResult.from_json(data)
+        out: Dict[str, Any] = {"names": list(h.detailed_names), "json": canon(data), "tree": tree(h),
+                               "reloaded": tree(again),
+                               "reload_eq": bool(again == h and again.detailed_names == h.detailed_names
+                                                 and again.to_json() == h.to_json())}
+        try:
+            comp = mi.Component(h, case["locus"])
+            assert comp.subtypes == h.detailed_names[1:]
+            assert comp.subtype == (h.detailed_names[1] if len(h.detailed_names) > 1 else None)
+            cagain = mi.Component.from_json(json.loads(json.dumps(comp.to_json())))
+            out["component"] = comp_json(comp)
+            out["reload_eq"] = out["reload_eq"] and comp_json(cagain) == comp_json(comp) and cagain.domain == h
+        except (ValueError, AssertionError) as exc:
+            out["component"] = {"err": err_kind(exc)}
+        return out
 
     def _impl_build(self, case: Dict[str, Any]) -> Dict[str, Any]:
         mi = _mi()
@@ -482,7 +603,7 @@ class C14(Property):
             record.add_region(DummyRegion(candidate_clusters=[], subregions=[sub]))
             i = j + 1
         domains = {g["name"]: [make_domain(d) for d in g["domains"]] for g in genes if g["domains"]}
-        motifs = {g["name"]: ["motif"] for g in genes if g.get("motifs")}
+        motifs = {g["name"]: [make_domain(["NRPS-motif", [], 3, 9])] for g in genes if g.get("motifs")}
         with patch.object(di, "get_fasta_from_features", return_value=""), \
                 patch.object(di, "find_domains", return_value=domains), \
                 patch.object(di, "find_subtypes", return_value={}), \
@@ -495,7 +616,17 @@ class C14(Property):
             res = results.cds_results.get(cds)
             if res is None:
                 continue
-            out.append({"name": cds.get_name(), "modules": [mod_json(m) for m in res.modules]})
+            # the whole per-gene result through its own JSON form (CDSResult.to_json / from_json)
+            try:
+                again = di.CDSResult.from_json(json.loads(json.dumps(res.to_json())))
+                cds_reload: Any = (len(again.modules) == len(res.modules)
+                                   and all(_identity_state(a) == _identity_state(b)
+                                           for a, b in zip(again.modules, res.modules))
+                                   and again.domain_hmms == res.domain_hmms and again.motif_hmms == res.motif_hmms)
+            except Exception as exc:  # pylint: disable=broad-except
+                cds_reload = err_kind(exc)
+            out.append({"name": cds.get_name(), "modules": [mod_json(m) for m in res.modules],
+                        "cds_reload": cds_reload})
         return {"genes": out}
 
     # ------------------------------------------------------------------ driver protocol
@@ -504,6 +635,8 @@ class C14(Property):
         line: Dict[str, Any] = {"kind": kind}
         if kind == "label":
             line.update(label=case["label"], subtypes=case["subtypes"])
+        elif kind == "hmm":
+            line.update(tree=case["tree"], locus=case["locus"])
         elif kind == "build":
             line.update(name=case["name"], domains=case["domains"], impl_modules=spec_view(obs.get("modules", [])))
         elif kind == "replay":
@@ -517,7 +650,7 @@ class C14(Property):
                         impl_merged=(spec_view([obs["merged"]])[0] if obs.get("merged") else None))
         elif kind == "chain":
             line.update(genes=case["genes"],
-                        impl_genes=[spec_view(g["modules"]) for g in obs.get("genes", [])])
+                        impl_genes=[{"name": g["name"], "modules": spec_view(g["modules"])} for g in obs.get("genes", [])])
         return line
 
     # ------------------------------------------------------------------ judge
@@ -574,6 +707,19 @@ class C14(Property):
                 corr = False
             return Judgement(corr, True, nontrivial=obs.get("classification") is not None, tags=("label",),
                              detail="" if corr else f"predicates differ: impl {obs} model {model}")
+
+        if kind == "hmm":
+            if "err" in obs or "err" in model:
+                corr = obs.get("err") == model.get("err")
+                # refusing a non-overlapping internal hit (ValueError) is the documented guard
+                return Judgement(corr, obs.get("err", "value-error") == "value-error", in_scope=False,
+                                 tags=("hmm", "err:" + str(obs.get("err"))),
+                                 detail="" if corr else f"implementation {obs.get('err', 'ok')} vs model {model.get('err', 'ok')}")
+            corr = all(obs[k] == model[k] for k in ("names", "json", "tree", "reloaded", "component")) and model["wf"]
+            spec_ok = obs["reload_eq"] and obs["reloaded"] == obs["tree"]
+            return Judgement(corr, spec_ok, nontrivial=len(obs["names"]) > 1 or obs["json"][5] is not None,
+                             tags=("hmm", f"names{min(len(obs['names']), 4)}"),
+                             detail="" if (corr and spec_ok) else f"hmm: impl {obs} model {model}"[:600])
 
         if "err" in obs or "err" in model:
             corr = obs.get("err") == model.get("err")
@@ -636,7 +782,16 @@ class C14(Property):
             corr = (len(og) == len(mg) and all(a["name"] == b["name"] and self._same_modules(a["modules"], b["modules"])
                                                for a, b in zip(og, mg)))
             crossing = 0
+            if not spec["line"]:
+                problems.append("assembly line: a reported module is not a contiguous block of the genes' domains "
+                                "read in transcription order (upstream gene's trailing end + downstream gene's "
+                                "leading end), or modules are out of order across genes")
+            if not spec["blocks"]:
+                problems.append("neighbours: a reported module spans genes that are not direct neighbours of one "
+                                "region and one strand (separator inside a module)")
             for g, sg in zip(og, spec["genes"]):
+                if g.get("cds_reload") is not True:
+                    problems.append(f"{g['name']}:CDSResult reload={g.get('cds_reload')}")
                 for m, s in zip(g["modules"], sg):
                     problems += [f"{g['name']}:{p}" for p in self._module_spec(m, s)]
                     if len({c[4] for c in m["comps"]}) > 1:
@@ -706,6 +861,14 @@ class C14(Property):
             cs = case["comps"]
             for i in range(len(cs)):
                 yield dict(case, comps=cs[:i] + cs[i + 1:])
+        elif kind == "hmm":
+            def prune(node: List[Any]) -> Iterator[List[Any]]:
+                for i in range(len(node[5])):
+                    yield node[:5] + [node[5][:i] + node[5][i + 1:]]
+                    for sub in prune(node[5][i]):
+                        yield node[:5] + [node[5][:i] + [sub] + node[5][i + 1:]]
+            for t in prune(case["tree"]):
+                yield dict(case, tree=t)
         elif kind == "pair":
             for key in ("a", "b"):
                 ds = case[key]["domains"]
